@@ -267,3 +267,100 @@ theorem dead_forever (s : S) (ops : List Op) (h : Dead s) : Dead (run s ops) := 
     exact ih _ (silent_after_onClose s op h).1
 
 end Abverif.Ws
+
+namespace Abverif.Ws
+
+/-! ### at most one close frame, and only a legal one -/
+
+/-- invariant on the record of close frames sent (`closeSent` is a history variable appended to by `sendCloseFrame`
+at the place where it hands the frame `8 ‖ closePayload code reason` to `sendFrame`) -/
+def CloseInv (s : S) : Prop :=
+  s.closeSent.length ≤ 1 ∧ (s.closeSent ≠ [] → 2 ≤ s.st.rank) ∧ ∀ x ∈ s.closeSent, LegalClose x
+
+theorem Ext.closeInv {a b : S} (h : Ext a b) (ha : CloseInv a) : CloseInv b := by
+  obtain ⟨h1, h2, h3⟩ := ha
+  rcases h.cs with e | ⟨ra, rb, x, ex, lx⟩
+  · rw [CloseInv, e]
+    exact ⟨h1, fun hne => Nat.le_trans (h2 hne) h.rank, h3⟩
+  · have hnil : a.closeSent = [] := by
+      cases hcs : a.closeSent with
+      | nil => rfl
+      | cons y ys => have := h2 (by simp [hcs]); omega
+    rw [CloseInv, ex, hnil]
+    refine ⟨by simp, fun _ => rb, ?_⟩
+    intro y hy
+    simp at hy; subst hy; exact lx
+
+theorem connectionLost_closeSent (s : S) : (connectionLost s).closeSent = s.closeSent := by
+  unfold connectionLost
+  split
+  · rfl
+  · unfold reportClose markClosed cancelOnLost
+    split <;> split <;> (try split) <;> rfl
+
+theorem step_closeInv (s : S) (op : Op) (h : CloseInv s) : CloseInv (step s op) := by
+  unfold step
+  refine (pump_Ext _).closeInv ?_
+  by_cases hop : op = .lost
+  · subst hop
+    simp only [stepCore]
+    obtain ⟨h1, h2, h3⟩ := h
+    rw [CloseInv, connectionLost_closeSent]
+    exact ⟨h1, fun hne => Nat.le_trans (h2 hne) (connectionLost_rank s), h3⟩
+  · exact (stepCore_Ext s op hop).closeInv h
+
+theorem run_closeInv (s : S) (ops : List Op) (h : CloseInv s) : CloseInv (run s ops) := by
+  induction ops generalizing s with
+  | nil => exact h
+  | cons op ops ih =>
+    simp only [run, List.foldl_cons]
+    exact ih _ (step_closeInv s op h)
+
+theorem start_closeInv (cfg : Cfg) : CloseInv (start cfg) := by
+  unfold start CloseInv
+  dsimp only
+  split <;> simp [armPingNext, S.timer]
+
+/-- **one_close_frame / close_frame_legal**: for every configuration and every history, at most one close frame is
+ever sent; when one has been sent the connection is CLOSING or CLOSED; and its status code is one RFC 6455 §7.4 allows
+on the wire (whether it comes from `sendClose`, from a failure, or is the echoed peer code) and its reason is at most
+123 octets long -/
+theorem one_close_frame (cfg : Cfg) (ops : List Op) :
+    (run (start cfg) ops).closeSent.length ≤ 1 ∧
+    ((run (start cfg) ops).closeSent ≠ [] → 2 ≤ (run (start cfg) ops).st.rank) ∧
+    ∀ x ∈ (run (start cfg) ops).closeSent, LegalClose x :=
+  run_closeInv _ ops (start_closeInv cfg)
+
+/-- the frame handed to `sendFrame` for a recorded close is exactly opcode 8 with payload `code ‖ reason` -/
+theorem close_frame_on_wire (s : S) (code : Option Nat) (reason : Option Bytes) (r : Bool) (h : s.st = .opened) :
+    ∃ s', s' = sendFrame s 8 (closePayload code reason) ∧
+      (sendCloseFrame s code reason r).log = s'.log ∧
+      (sendCloseFrame s code reason r).closeSent = s.closeSent ++ [(code, reason)] := by
+  refine ⟨_, rfl, ?_, ?_⟩
+  · unfold sendCloseFrame
+    simp only [h]
+    split <;> rfl
+  · unfold sendCloseFrame
+    simp only [h]
+    have := (sendFrame_SendEq s 8 (closePayload code reason) true 0 false 0).closeSent
+    split
+    · show (sendFrame s 8 (closePayload code reason)).closeSent ++ _ = _; rw [this]
+    · show (sendFrame s 8 (closePayload code reason)).closeSent ++ _ = _; rw [this]
+
+/-- the payload of a close frame is never of length 1 (a status code takes two octets) -/
+theorem closePayload_length (code : Option Nat) (reason : Option Bytes) (h : reason.isSome → code.isSome) :
+    (closePayload code reason).length ≠ 1 := by
+  unfold closePayload
+  cases code with
+  | none =>
+    cases reason with
+    | none => simp
+    | some r => simp at h
+  | some c => simp [beBytes_length']; omega
+where
+  beBytes_length' (k n : Nat) : (beBytes k n).length = k := by
+    induction k generalizing n with
+    | zero => rfl
+    | succ k ih => simp [beBytes, ih]
+
+end Abverif.Ws
